@@ -4,7 +4,7 @@ spec/Reduce.tla  : L = representer.py (alias bookkeeping, represent_object case 
                    (construct_object cache / recursion guard / generators / deep_construct, python/object, /new, /apply,
                    set_python_instance_state), H = PickleRebuild + the verdicts of spec/H_Reduce.tla.  TLC checks L => H on
                    every abstract object graph of the bounded space (repaired design refines H; the design as the code
-                   has it deviates only through the six named deviations).
+                   has it deviates only through the named deviations).
 spec -> code     : every complete graph of the TLC run is instantiated from the class family harness/verif_canary17.py,
                    dumped (Dumper, CDumper), loaded (UnsafeLoader, CUnsafeLoader, FullLoader, CFullLoader), rebuilt with
                    pickle protocol 2; all rebuilt graphs are projected to heaps.
@@ -17,19 +17,21 @@ from .. import tlc, mbt, tlaval
 from ..common import Verdict, use_repo, SEED, BUILD, ensure_dir
 
 ALL = ['list', 'dict', 'tuple', 'set', 'P', 'PA', 'S', 'SD', 'GS', 'GT', 'GV', 'GC', 'GL', 'NA', 'NT', 'R2', 'R3', 'RL', 'RD', 'CR', 'ML', 'MD',
-       'MS', 'OD']
+       'MS', 'OD', 'MO', 'XS']
 ALLLEAVES = ['i', 'i0', 's', 's0', 'z', 'c', 'n', 'f', 'm', 'e', 'b']
-DEVIATIONS = ['deepreg', 'slotsnone', 'falsystate', 'nonestate', 'emptytuple', 'latefill']
+DEVIATIONS = ['deepreg', 'slotsnone', 'falsystate', 'nonestate', 'emptytuple', 'latefill', 'scalarsub']
 A7 = ['list', 'P', 'GS', 'R2', 'tuple', 'GV', 'ML']
 B7 = ['dict', 'S', 'SD', 'GT', 'NA', 'RL', 'OD']
-C7 = ['set', 'NT', 'R3', 'RD', 'CR', 'MD', 'MS', 'GC', 'PA']
+C7 = ['set', 'NT', 'R3', 'RD', 'CR', 'MD', 'MS', 'GC', 'PA', 'MO', 'XS']
 CONFIGS = {
     # quick: every ordered pair of shapes (root with <= 2 kids: sharing; second object with <= 1 kid: back edge),
     # every leaf kind under every shape, chains of three objects with back edges over two 7-shape families
     'pairsAB': dict(MaxObjs=2, Shapes=A7 + B7, Leaves=['i'], KidsRoot=2, KidsRest=1),
     'pairsC':  dict(MaxObjs=2, Shapes=C7 + ['list', 'GS'], Leaves=['i'], KidsRoot=2, KidsRest=1),
     'triL':    dict(MaxObjs=3, Shapes=['list', 'GL', 'tuple', 'PA'], Leaves=['i'], KidsRoot=2, KidsRest=1),
-    'leaves':  dict(MaxObjs=1, Shapes=ALL, Leaves=['i', 'i0', 's0', 'z', 'c', 'n', 'f', 'm', 'e'], KidsRoot=2, KidsRest=0),
+    'leaves':  dict(MaxObjs=1, Shapes=ALL, Leaves=['i', 'i0', 'z', 'c', 'n', 'm', 'e'], KidsRoot=2, KidsRest=0),
+    'chainA5': dict(MaxObjs=3, Shapes=['list', 'P', 'GS', 'R2', 'GV'], Leaves=['i'], KidsRoot=1, KidsRest=1),
+    'chainB5': dict(MaxObjs=3, Shapes=['dict', 'SD', 'GT', 'NA', 'RL'], Leaves=['i'], KidsRoot=1, KidsRest=1),
     'chainA':  dict(MaxObjs=3, Shapes=A7, Leaves=['i'], KidsRoot=1, KidsRest=1),
     'chainB':  dict(MaxObjs=3, Shapes=B7, Leaves=['i'], KidsRoot=1, KidsRest=1),
     # thorough
@@ -48,10 +50,10 @@ CONFIGS = {
     'quad_a':  dict(MaxObjs=4, Shapes=['list', 'P', 'GS', 'R2', 'tuple'], Leaves=['i'], KidsRoot=1, KidsRest=1),
     'quad_b':  dict(MaxObjs=4, Shapes=['dict', 'GV', 'ML', 'SD', 'NA'], Leaves=['i'], KidsRoot=1, KidsRest=1),
 }
-TIERS = {'quick': ['pairsAB', 'pairsC', 'triL', 'leaves', 'chainA', 'chainB'],
+TIERS = {'quick': ['pairsAB', 'pairsC', 'triL', 'leaves', 'chainA5', 'chainB5'],
          'thorough': ['pairs22', 'pairs_l', 'leaves2', 'triL', 'triL2', 'chainA', 'chainB', 'chainC', 'tri_a', 'tri_b', 'tri_c', 'tri_d', 'tri_e',
                       'tri_a2', 'tri_b2', 'quad_a', 'quad_b']}
-RANDOM = {'quick': 600, 'thorough': 12000}
+RANDOM = {'quick': 400, 'thorough': 12000}
 WORKERS = int(os.environ.get('VERIF_TLC_WORKERS', '16'))
 
 
@@ -193,26 +195,35 @@ _start = re.compile(r'<<\s*"V17"')
 
 
 def judge(records, tag, fixes, batch=4000):
-    """-> (lines, states): lines[i] = list of verdict tuples [kind, j, ok, why, at, conf, need, pconf] of records[i]"""
+    """-> (lines, states): lines[i] = list of verdict tuples [kind, j, ok, why, at, conf, need, pconf] of records[i].
+    The batches are judged by concurrent TLC runs."""
+    from concurrent.futures import ThreadPoolExecutor
     out = [[] for _ in records]
-    states = 0
     d = ensure_dir(os.path.join(BUILD, 'traces'))
     keep = ('g', 'ref', 'rroot', 'unsafe', 'tags', 'full')
-    for b0 in range(0, len(records), batch):
+    starts = list(range(0, len(records), batch))
+    par = max(1, min(4, len(starts)))
+
+    def one(b0):
         part = [{k: r[k] for k in keep} for r in records[b0:b0 + batch]]
         path = os.path.join(d, '%s_%d.json' % (tag, b0))
         json.dump(part, open(path, 'w'))
         r = tlc.run('Trace_Reduce', tag='%s_%d' % (tag, b0), env={'TRACE_FILE': path}, coverage=False, timeout=1500,
-                    workers=WORKERS, constants={'CodeFixes': tla(fixes)})
+                    workers=max(2, WORKERS // par), heap='4g', constants={'CodeFixes': tla(fixes)})
+        os.remove(path)
+        return b0, r
+    with ThreadPoolExecutor(par) as ex:
+        results = list(ex.map(one, starts))
+    states = 0
+    for b0, r in results:
         if not r.ok:
             print(r.out[-3000:])
             raise SystemExit('machinery failure: trace validation run of Trace_Reduce failed')
         states += r.distinct
-        starts = [m.start() for m in _start.finditer(r.out)]
-        for a, b in zip(starts, starts[1:] + [len(r.out)]):
+        pos = [m.start() for m in _start.finditer(r.out)]
+        for a, b in zip(pos, pos[1:] + [len(r.out)]):
             v = tlaval.P(r.out[a:min(b, a + 4000)]).value()
             out[b0 + v[1] - 1].append(v[2:])
-        os.remove(path)
     for i, r in enumerate(records):
         if len(out[i]) != len(r['unsafe']) + len(r['full']):
             raise SystemExit('machinery failure: %d verdicts for trace %d, expected %d' % (len(out[i]), i, len(r['unsafe']) + len(r['full'])))
@@ -249,7 +260,7 @@ def work_random(args):
 
 # ------------------------------------------------------------------------------------------------ random graphs
 ARGSHAPES = {'tuple', 'NA', 'NT', 'R2', 'R3', 'CR'}
-TWOSEC = {'NA', 'R3', 'RL', 'ML', 'MD', 'MS'}
+TWOSEC = {'NA', 'R3', 'RL', 'ML', 'MD', 'MS', 'MO'}
 AONLY = {'P', 'PA', 'S', 'SD', 'GS'}
 
 
@@ -269,7 +280,7 @@ def in_domain(g):
     if any(color[i] == 0 and dfs(i) for i in range(n)):
         return False
     for i, o in enumerate(g):
-        if o['s'] == 'GV' and o['p'][0]['r'] and g[o['p'][0]['r'] - 1]['s'] in ('dict', 'MD', 'OD'):
+        if o['s'] == 'GV' and o['p'][0]['r'] and g[o['p'][0]['r'] - 1]['s'] in ('dict', 'MD', 'OD', 'MO'):
             return False
         if o['s'] == 'GL':
             t = o['p'][0]['r'] - 1
@@ -326,6 +337,8 @@ def random_graph(rnd):
                 p, a = [val() for _ in range(rnd.randrange(1 if last else 0, 4))], [val() for _ in range(rnd.randrange(0, 3))]
             elif s == 'GV':
                 p, a = [val()], []
+            elif s == 'XS':
+                p, a = [{'r': 0, 'l': rnd.choice(['i', 'i0', 's', 's0', 'b', 'c'])}], [val() for _ in range(rnd.randrange(1 if last else 0, 3))]
             elif s == 'GL':                      # its kid is a list: one seen so far, or a new object forced to be one
                 force[0] = False
                 lists = [j + 1 for j, o in enumerate(g) if o['s'] == 'list'] + [j for j, x in forced.items() if x == 'list']
@@ -353,6 +366,7 @@ PROBES = {  # the smallest graph that separates the code as pinned from the repa
     'falsystate': [{'s': 'GT', 'p': [], 'a': []}],
     'nonestate': [{'s': 'GV', 'p': [{'r': 0, 'l': 'z'}], 'a': []}],
     'emptytuple': [{'s': 'list', 'p': [{'r': 2, 'l': ''}, {'r': 2, 'l': ''}], 'a': []}, {'s': 'NA', 'p': [], 'a': [{'r': 0, 'l': 'i'}]}],
+    'scalarsub': [{'s': 'list', 'p': [{'r': 2, 'l': ''}, {'r': 2, 'l': ''}], 'a': []}, {'s': 'XS', 'p': [{'r': 0, 'l': 'i'}], 'a': [{'r': 0, 'l': 'i'}]}],
     'latefill': [{'s': 'list', 'p': [{'r': 2, 'l': ''}, {'r': 3, 'l': ''}], 'a': []}, {'s': 'GL', 'p': [{'r': 3, 'l': ''}], 'a': []},
                  {'s': 'list', 'p': [{'r': 0, 'l': 'i'}], 'a': []}],
 }
@@ -436,10 +450,18 @@ def main(tier, replay=None):
         v.cov = {'states': js, 'transitions': js, 'traces_validated_against_impl': len(recs), 'replayed': len(recs)}
         return v.finish()
     per_config, allrecs = {}, []
+    from concurrent.futures import ThreadPoolExecutor
+    par = 1 if tier == 'thorough' else min(6, len(TIERS[tier]))        # the quick configurations are small: run TLC on all at once
+
+    def mc(name):
+        return tlc.run('Reduce', cfg='MC_Reduce.cfg', dump=True, tag='C17_' + name, timeout=3000, coverage=False,
+                       workers=max(2, WORKERS // min(par, 4)), heap='8g' if par == 1 else '3g',
+                       constants=dict({k: tla(x) for k, x in CONFIGS[name].items()}, CodeFixes=tla(fixes)))
+    with ThreadPoolExecutor(par) as ex:
+        runs = dict(zip(TIERS[tier], ex.map(mc, TIERS[tier])))
     for name in TIERS[tier]:
         cfg = CONFIGS[name]
-        r = tlc.run('Reduce', cfg='MC_Reduce.cfg', dump=True, tag='C17_' + name, timeout=3000, coverage=False, workers=WORKERS,
-                    constants=dict({k: tla(x) for k, x in cfg.items()}, CodeFixes=tla(fixes)))
+        r = runs[name]
         if r.violated:
             print(r.out[-3000:])
             raise SystemExit('machinery failure: Reduce.tla violates %s in configuration %s (L does not refine H in the model)' % (r.violated, name))
@@ -474,7 +496,7 @@ def main(tier, replay=None):
     samples += [{'g': x['g'], 'unsafe': [u['out'] for u in x['unsafe']], 'full_accepts': x['full']} for x in recs[:1]]
     allrecs += recs
     t3 = time.time()
-    lines, jstates = judge(allrecs, 'C17_judge', fixes, batch=6000)
+    lines, jstates = judge(allrecs, 'C17_judge', fixes, batch=6000 if tier == 'thorough' else 3600)
     if os.environ.get('VERIF_C17_TIMING'):
         print('timing judge: %.1fs for %d records' % (time.time() - t3, len(allrecs)))
     for origin in TIERS[tier] + ['random']:
